@@ -667,3 +667,59 @@ def quadratic_extrap(ys, xs):
     x1,x2,x3 = xs
     return x2*x3/((x1-x2)*(x1-x3)) * y1 + x1*x3/((x2-x1)*(x2-x3)) * y2\
             + x1*x2/((x3-x1)*(x3-x2)) * y3
+
+def _lagrange_extrap(ys, xs):
+    """
+    Extrapolate to x = 0 the polynomial of degree len(xs)-1 passing through
+    the given x,y pairs (Lagrange form).
+
+    ys: y values from x,y pairs. Note that these can be arrays of values.
+    xs: x values from x,y pairs. These should be scalars.
+    """
+    result = 0
+    for ii, (yi, xi) in enumerate(zip(ys, xs)):
+        weight = 1.
+        for jj, xj in enumerate(xs):
+            if jj != ii:
+                weight *= xj/(xj - xi)
+        result = result + weight * yi
+    return result
+
+def cubic_extrap(ys, xs):
+    """
+    Cubically extrapolate from four x,y pairs to x = 0.
+
+    ys: y values from x,y pairs. Note that these can be arrays of values.
+    xs: x values from x,y pairs. These should be scalars.
+
+    Returns extrapolated y at x=0.
+    """
+    if len(ys) != 4 or len(xs) != 4:
+        raise ValueError('cubic_extrap requires four x,y pairs.')
+    return _lagrange_extrap(ys, xs)
+
+def quartic_extrap(ys, xs):
+    """
+    Quartically extrapolate from five x,y pairs to x = 0.
+
+    ys: y values from x,y pairs. Note that these can be arrays of values.
+    xs: x values from x,y pairs. These should be scalars.
+
+    Returns extrapolated y at x=0.
+    """
+    if len(ys) != 5 or len(xs) != 5:
+        raise ValueError('quartic_extrap requires five x,y pairs.')
+    return _lagrange_extrap(ys, xs)
+
+def quintic_extrap(ys, xs):
+    """
+    Quintically extrapolate from six x,y pairs to x = 0.
+
+    ys: y values from x,y pairs. Note that these can be arrays of values.
+    xs: x values from x,y pairs. These should be scalars.
+
+    Returns extrapolated y at x=0.
+    """
+    if len(ys) != 6 or len(xs) != 6:
+        raise ValueError('quintic_extrap requires six x,y pairs.')
+    return _lagrange_extrap(ys, xs)
